@@ -98,7 +98,9 @@ func ReplayTypedAsm(cs *TypedAsmCase, eng Engine, secondary bool) ([]*run.Findin
 		}
 		return f, 2
 	}
-	f, checks := replayAsmSteps(cs.Steps, nb, target, model.Conc{}, onBuild, nil)
+	// Generated typed maps take their keys through the key TYPE's own assembler (the arrangement that serves complex
+	// keys), so the map can notice a repeated key only at its next call: late refusal is accepted from that engine.
+	f, checks := replayAsmStepsOpt(cs.Steps, nb, target, model.Conc{}, onBuild, nil, eng.Name == "gengo")
 	if f != nil {
 		if f.Step >= 0 && f.Step < len(cs.Ft) {
 			f.Detail = fmt.Sprintf("call made in a %s frame: %s", cs.Ft[f.Step], f.Detail)
